@@ -1,7 +1,8 @@
 import Stgutg.Base.Prims
 import Stgutg.Crypto.Aes
+import Stgutg.Crypto.Sha256
 namespace Stgutg.Crypto
-/-- hmac is filled in by Crypto/Sha256.lean users via `primsWith`. -/
-def prims (hmac : Bytes → Bytes → Bytes := fun _ _ => []) : Prims :=
+/-- the executable instantiation of the primitives used by the driver (comparator only) -/
+def prims (hmac : Bytes → Bytes → Bytes := hmacSha256) : Prims :=
   { aes := aes128, ctr := ctrMode aes128, cmac := cmacMode aes128, hmac := hmac }
 end Stgutg.Crypto
